@@ -288,7 +288,78 @@ def check_files(acc, tmpdir):
                         acc.violation({"oracle": "write_file_writes_what_write_string_returns", "target": target}, {"case": case, "observed": repr(got)[:400], "expected": repr(exp)[:400]})
 
 
+def check_failures(acc, tmpdir):
+    """Calls that are rejected (illegal argument pair, a middleware raising, a non-block result): an existing target file
+    keeps its content, a missing one is not created; a library handed in stays a consistent library."""
+
+    class Boom(BlockMiddleware):
+        def transform_entry(self, entry, library):
+            raise RuntimeError("middleware failed")
+
+    lib0 = lambda: bibtexparser.parse_string(DOCS[1])
+    path = os.path.join(tmpdir, "keep.bib")
+    bad_calls = {
+        "both arguments": lambda target: bibtexparser.write_file(target, lib0(), parse_stack=[], append_middleware=[]),
+        "middleware raises": lambda target: bibtexparser.write_file(target, lib0(), append_middleware=[Boom()]),
+        "non-block result": lambda target: bibtexparser.write_file(target, lib0(), parse_stack=[Proto("entry", "42")]),
+    }
+    for name, call in bad_calls.items():
+        for existing in (True, False):
+            if os.path.exists(path):
+                os.unlink(path)
+            if existing:
+                bibtexparser.write_file(path, lib0())
+                with open(path) as f:
+                    before = f.read()
+            acc.trace()
+            acc.case(nontrivial_key=("failure", name, existing))
+            r = attempt(lambda: call(path))
+            if r[0] != "raised":
+                continue
+            now = open(path).read() if os.path.exists(path) else None
+            exp = before if existing else None
+            acc.step(("write_file failure", name), existing, "kept" if now == exp else "touched")
+            if now != exp:
+                acc.violation(
+                    {"oracle": "rejected_write_file_leaves_target", "how": name},
+                    {"case": {"failure": name, "existing_file": existing}, "observed": "file truncated / created" if now is not None else "file removed", "expected": "target as before the rejected call"},
+                )
+    # parse_string(..., library=lib) that is rejected: lib is still a consistent library, and usable
+    for name, kw in (("both arguments", dict(parse_stack=[], append_middleware=[])), ("middleware raises", dict(append_middleware=[Boom()])), ("non-block result", dict(parse_stack=[Proto("string", "42")]))):
+        lib = bibtexparser.parse_string(DOCS[0])
+        acc.trace()
+        acc.case(nontrivial_key=("parse failure", name))
+        r = attempt(lambda: bibtexparser.parse_string(DOCS[1], library=lib, **kw))
+        if r[0] != "raised":
+            continue
+        problems = _consistency(lib)
+        if not problems:
+            # the caller empties the library and parses again into it: as into a new library
+            attempt(lambda: lib.remove(list(lib.blocks)))
+            r2 = attempt(lambda: bibtexparser.parse_string(DOCS[1], library=lib))
+            fresh_ = attempt(lambda: bibtexparser.parse_string(DOCS[1]))
+            if cmp_lib(r2) != cmp_lib(fresh_):
+                problems = "a later parse into the emptied library differs from a parse into a new one"
+        if problems:
+            acc.violation(
+                {"oracle": "library_consistent_after_rejected_parse", "how": name},
+                {"case": {"parse_failure": name}, "observed": problems, "expected": "blocks, entries_dict and strings_dict describe the same blocks"},
+            )
+
+
+def _consistency(lib):
+    blocks = lib.blocks
+    ents = [b for b in blocks if isinstance(b, Entry)]
+    strs = [b for b in blocks if isinstance(b, String)]
+    if sorted(lib.entries_dict) != sorted(e.key for e in ents) or any(lib.entries_dict[e.key] is not e for e in ents):
+        return f"entries_dict {sorted(lib.entries_dict)} vs held entries {[e.key for e in ents]}"
+    if sorted(lib.strings_dict) != sorted(s.key for s in strs) or any(lib.strings_dict[s.key] is not s for s in strs):
+        return f"strings_dict {sorted(lib.strings_dict)} vs held strings {[s.key for s in strs]}"
+    return None
+
+
 def check_illegal(acc, tmpdir):
+    check_failures(acc, tmpdir)
     text = DOCS[0]
     path = os.path.join(tmpdir, "x.bib")
     with open(path, "w") as f:
@@ -571,6 +642,8 @@ def replay(case, acc):
             check_reuse(acc)
         elif "bigfile" in case:
             check_bigfile(case["bigfile"], acc, tmpdir)
+        elif "failure" in case or "parse_failure" in case:
+            check_failures(acc, tmpdir)
         elif "illegal" in case:
             check_illegal(acc, tmpdir)
         else:
